@@ -276,6 +276,16 @@ theorem C02_roundtrip_nested_example :
 /-- both files use the same thresholds (1e10 / 1e13 / 1e16) and multipliers -/
 theorem C02_units_same : typedUnits = normUnits ∧ typedUnitDefault = normUnitDefault := units_same
 
+/-- both files truncate a float epoch to int64 BEFORE the unit scaling and scale with plain integer
+`ts * multiplier` / `ts / divisor` (the statements of `decodeTimeColumnTyped` and
+`normalizeTimestampColumns`, as source text) — what `typedTs`/`applyMult` and `toInt64Ts`/`normAll`
+model, and what `C02_timeElem_agrees` / `C02_timeColumn_agrees` (typed = generic on every element)
+stand on. A change that carries a fractional part through the scaling breaks this. -/
+theorem C02_time_scaling :
+    typedTimeElem = ["int64(v)", "v", "int64(f)"] ∧
+    typedTimeScale = ["ts / -multiplier", "ts * multiplier"] ∧
+    normTimeScale = ["ts / divisor", "ts / divisor", "ts * multiplier", "ts * multiplier"] := by decide
+
 /-- … and they are the documented ones -/
 theorem C02_units_table :
     normUnits = [(10000000000, 1000000), (10000000000000, 1000), (10000000000000000, 1)] ∧
